@@ -44,14 +44,14 @@ Print Assumptions c02_earlier_resolvers_next_partial.
 Theorem c02_unresolved_is_error_partial : forall o dv fuel0 root a p sep a',
   resolve_ref o dv fuel0 root a p sep = (RMissing, a') \/ resolve_ref o dv fuel0 root a p sep = (RNone, a') ->
   resolve_env o (path_str p sep) = None ->
-  ref_eval o dv fuel0 root a p sep = Err EMissing "!raw".
+  ref_eval o dv fuel0 root a p sep = mkerr a' EMissing "!raw".
 Proof. exact unresolved_reference_is_error. Qed.
 Print Assumptions c02_unresolved_is_error_partial.
 
 Theorem c02_empty_resolver_value_is_error_partial : forall o dv fuel0 root a p sep a' pc,
   resolve_ref o dv fuel0 root a p sep = (RMissing, a') ->
   resolve_env o (path_str p sep) = Some ("", pc) ->
-  ref_eval o dv fuel0 root a p sep = Err EOther "!raw".
+  ref_eval o dv fuel0 root a p sep = mkerr a' EOther "!raw".
 Proof. exact empty_resolver_value_is_error. Qed.
 Print Assumptions c02_empty_resolver_value_is_error_partial.
 
@@ -61,7 +61,7 @@ Theorem c02_default_when_unset_partial : forall o dv fuel0 root a l r sep path a
                (parse_path path sep (p_maxIdx (eo_p o)) (p_numKeys (eo_p o)) (p_escape (eo_p o))) sep)
     = Err e pth ->
   eval_exp o dv fuel0 (EDefault l r sep) root a
-  = scoped (absorbed e a1) (eval_exp o dv fuel0 r root (act_push (absorbed e a1))).
+  = scoped (absorbed e pth a1) (eval_exp o dv fuel0 r root (act_push (absorbed e pth a1))).
 Proof. exact default_on_failure. Qed.
 Print Assumptions c02_default_when_unset_partial.
 
@@ -79,8 +79,8 @@ Theorem c02_error_operator_partial : forall o dv fuel0 root a l r sep path a1 e 
   scoped a1 (ref_eval o dv fuel0 root (act_push a1)
                (parse_path path sep (p_maxIdx (eo_p o)) (p_numKeys (eo_p o)) (p_escape (eo_p o))) sep)
     = Err e pth ->
-  scoped a1 (eval_exp o dv fuel0 r root (act_push a1)) = Ok (m, a3) ->
-  eval_exp o dv fuel0 (EErr l r sep) root a = Err EOther "!raw".
+  scoped (absorbed e pth a1) (eval_exp o dv fuel0 r root (act_push (absorbed e pth a1))) = Ok (m, a3) ->
+  eval_exp o dv fuel0 (EErr l r sep) root a = mkerr a3 EOther "!raw".
 Proof. exact error_operator_fails. Qed.
 Print Assumptions c02_error_operator_partial.
 
@@ -89,7 +89,7 @@ Theorem c02_alternative_unset_partial : forall o dv fuel0 root a l r sep path a1
   scoped a1 (ref_resolve o dv fuel0 root (act_push a1)
                (parse_path path sep (p_maxIdx (eo_p o)) (p_numKeys (eo_p o)) (p_escape (eo_p o))) sep)
     = Err e pth ->
-  eval_exp o dv fuel0 (EAlt l r sep) root a = Ok ("", absorbed e a1).
+  eval_exp o dv fuel0 (EAlt l r sep) root a = Ok ("", absorbed e pth a1).
 Proof. exact alternative_unset_is_empty. Qed.
 Print Assumptions c02_alternative_unset_partial.
 
@@ -109,6 +109,12 @@ Theorem c02_escape_examples :
   /\ parse_splice "." 1024 false false "${x:d}" = inl (EDefault (EConst "x") (EConst "d") ".").
 Proof. exact escape_examples. Qed.
 Print Assumptions c02_escape_examples.
+
+(* mkerr a e p is the error e, carrying in front of its path the bookkeeping bit "a cyclic error was
+   absorbed on the way" of the state a (used by the correspondence check only) *)
+Theorem c02_mkerr_is_the_plain_error : forall A a e p, act_marked a = false -> @mkerr A a e p = Err e p.
+Proof. exact @mkerr_unmarked. Qed.
+Print Assumptions c02_mkerr_is_the_plain_error.
 
 (* the hypotheses are met by concrete configurations: the model's reads of a small tree *)
 Theorem c02_examples :
